@@ -251,25 +251,25 @@ func applyFloatConstraints(constraints *validate.FieldRules, schema *base.Schema
 
 	// Greater than or equal (minimum)
 	if floatConstraints.HasGte() {
-		minValue := float64(floatConstraints.GetGte())
+		minValue := float32Bound(floatConstraints.GetGte())
 		schema.Minimum = &minValue
 	}
 
 	// Greater than (exclusive minimum)
 	if floatConstraints.HasGt() {
-		minValue := float64(floatConstraints.GetGt())
+		minValue := float32Bound(floatConstraints.GetGt())
 		schema.ExclusiveMinimum = &base.DynamicValue[bool, float64]{B: minValue}
 	}
 
 	// Less than or equal (maximum)
 	if floatConstraints.HasLte() {
-		maxValue := float64(floatConstraints.GetLte())
+		maxValue := float32Bound(floatConstraints.GetLte())
 		schema.Maximum = &maxValue
 	}
 
 	// Less than (exclusive maximum)
 	if floatConstraints.HasLt() {
-		maxValue := float64(floatConstraints.GetLt())
+		maxValue := float32Bound(floatConstraints.GetLt())
 		schema.ExclusiveMaximum = &base.DynamicValue[bool, float64]{B: maxValue}
 	}
 
@@ -411,4 +411,15 @@ func checkIfFieldRequired(field *protogen.Field) bool {
 	}
 
 	return fieldConstraints.GetRequired()
+}
+
+// float32Bound widens a float rule bound to the float64 a JSON Schema keyword takes without changing
+// its decimal text: 0.1 stays 0.1 (the wire form of the float value) instead of becoming
+// 0.10000000149011612, which would exclude the bound itself.
+func float32Bound(v float32) float64 {
+	widened, err := strconv.ParseFloat(strconv.FormatFloat(float64(v), 'g', -1, 32), 64)
+	if err != nil {
+		return float64(v)
+	}
+	return widened
 }
